@@ -369,5 +369,207 @@ mod misc {
         if !drops().is_empty() { notes.push("producers: drops do not match: something was dropped after the vector had been emptied".into()); }
         (notes, Some(line))
     }
+
+    // ------------------------------------------------------------------------------------------
+    // the trait surface of the vector types against std::vec::Vec: io::Write, the construction
+    // macros, Clone, Extend<&T>, FromIterator, comparisons, Hash, Index, Debug, Borrow / AsRef
+    pub fn traits_probe(r: &mut Rng) -> Vec<String> {
+        use std::collections::hash_map::DefaultHasher;
+        use std::hash::{Hash, Hasher};
+        use std::io::{IoSlice, Write};
+        use bump_scope::{bump_vec, mut_bump_vec, mut_bump_vec_rev};
+        let mut notes: Vec<String> = vec![];
+        let n = r.range(0, 9) as usize;
+        let a: Vec<u8> = (0..n).map(|_| r.below(5) as u8 + 1).collect();
+        let m = r.range(0, 9) as usize;
+        let b: Vec<u8> = (0..m).map(|_| r.below(5) as u8 + 1).collect();
+        let c: Vec<u8> = (0..r.range(0, 5) as usize).map(|_| r.below(250) as u8).collect();
+        let head = format!("traits: a={a:?} b={b:?} c={c:?}");
+        let hash_of = |x: &dyn Fn(&mut DefaultHasher)| { let mut h = DefaultHasher::new(); x(&mut h); h.finish() };
+        let bump: Bump = Bump::new();
+        let mut bump2: Bump = Bump::new();
+        macro_rules! differ { ($what:expr, $got:expr, $want:expr) => { if $got != $want { notes.push(format!("{head}: contents differ from std::vec::Vec: {}: {:?} instead of {:?}", $what, $got, $want)); } }; }
+        // ---- io::Write on the three byte vectors
+        let mut want: Vec<u8> = a.clone();
+        let mut bv: BumpVec<u8, &Bump> = BumpVec::from_iter_in(a.iter().copied(), &bump);
+        let mut mv: MutBumpVec<u8, &mut Bump> = MutBumpVec::from_iter_in(a.iter().copied(), &mut bump2);
+        let cap = n + m + c.len() + r.below(3) as usize;
+        let mut fv: FixedBumpVec<u8> = FixedBumpVec::with_capacity_in(cap, &bump);
+        fv.extend_from_slice_copy(&a);
+        let w1 = want.write(&b).unwrap();
+        differ!("io::Write::write (returned count, BumpVec)", bv.write(&b).unwrap(), w1);
+        differ!("io::Write::write (returned count, MutBumpVec)", mv.write(&b).unwrap(), w1);
+        differ!("io::Write::write (returned count, FixedBumpVec)", fv.write(&b).unwrap(), w1);
+        want.write_all(&c).unwrap(); bv.write_all(&c).unwrap(); mv.write_all(&c).unwrap(); fv.write_all(&c).unwrap();
+        differ!("io::Write::write / write_all (BumpVec)", bv.as_slice(), want.as_slice());
+        differ!("io::Write::write / write_all (MutBumpVec)", mv.as_slice(), want.as_slice());
+        differ!("io::Write::write / write_all (FixedBumpVec)", fv.as_slice(), want.as_slice());
+        let slices = [IoSlice::new(&c), IoSlice::new(&a), IoSlice::new(&[]), IoSlice::new(&b)];
+        let wv = want.write_vectored(&slices).unwrap();
+        differ!("io::Write::write_vectored (returned count, BumpVec)", bv.write_vectored(&slices).unwrap(), wv);
+        differ!("io::Write::write_vectored (returned count, MutBumpVec)", mv.write_vectored(&slices).unwrap(), wv);
+        differ!("io::Write::write_vectored (BumpVec)", bv.as_slice(), want.as_slice());
+        differ!("io::Write::write_vectored (MutBumpVec)", mv.as_slice(), want.as_slice());
+        // the fixed vector has no room for all of it: an error and nothing written, or all of it
+        let before = fv.to_vec();
+        match fv.write_vectored(&slices) {
+            Ok(k) => { if k != wv || fv.as_slice() != want.as_slice() { notes.push(format!("{head}: contents differ from std::vec::Vec: FixedBumpVec::write_vectored wrote {k} bytes: {:?}", fv.as_slice())); } }
+            Err(_) => {
+                if before.len() + wv <= fv.capacity() { notes.push(format!("{head}: capacity: FixedBumpVec::write_vectored failed although {} + {wv} <= capacity {}", before.len(), fv.capacity())); }
+                if fv.as_slice() != before.as_slice() { notes.push(format!("{head}: contents differ from std::vec::Vec: a failed FixedBumpVec::write_vectored changed the contents")); }
+            }
+        }
+        let full_before = fv.to_vec();
+        let too_much = vec![9u8; fv.capacity() - fv.len() + 1];
+        if fv.write(&too_much).is_ok() || fv.write_all(&too_much).is_ok() { notes.push(format!("{head}: capacity: a write beyond the capacity of a FixedBumpVec succeeded")); }
+        differ!("a refused io::Write::write (FixedBumpVec)", fv.as_slice(), full_before.as_slice());
+        write!(want, "{}-{:?}", n, b).unwrap(); write!(bv, "{}-{:?}", n, b).unwrap(); write!(mv, "{}-{:?}", n, b).unwrap();
+        differ!("write! (BumpVec)", bv.as_slice(), want.as_slice());
+        differ!("write! (MutBumpVec)", mv.as_slice(), want.as_slice());
+        if bv.flush().is_err() || mv.flush().is_err() || fv.flush().is_err() { notes.push(format!("{head}: contents differ from std::vec::Vec: flush failed")); }
+        drop(mv);
+        // ---- macros
+        let x = r.below(200) as u32;
+        let k = r.range(0, 6) as usize;
+        { let v = bump_vec![in &bump]; let e: &[u32] = &v; differ!("bump_vec![in]", e, &[] as &[u32]); }
+        { let v = bump_vec![in &bump; x, x + 1, x + 2]; differ!("bump_vec![in; a, b, c]", v.as_slice(), vec![x, x + 1, x + 2].as_slice()); }
+        { let v = bump_vec![in &bump; x; k]; differ!("bump_vec![in; x; n]", v.as_slice(), vec![x; k].as_slice()); }
+        { let v = mut_bump_vec![in &mut bump2; x, x + 1, x + 2]; differ!("mut_bump_vec![in; a, b, c]", v.as_slice(), vec![x, x + 1, x + 2].as_slice()); }
+        { let v = mut_bump_vec![in &mut bump2; x; k]; differ!("mut_bump_vec![in; x; n]", v.as_slice(), vec![x; k].as_slice()); }
+        { let v = mut_bump_vec_rev![in &mut bump2; x, x + 1, x + 2]; differ!("mut_bump_vec_rev![in; a, b, c]", v.as_slice(), vec![x, x + 1, x + 2].as_slice()); }
+        { let v = mut_bump_vec_rev![in &mut bump2; x; k]; differ!("mut_bump_vec_rev![in; x; n]", v.as_slice(), vec![x; k].as_slice()); }
+        // ---- Clone, Extend<&T>, Extend<T>, comparisons, Hash, Index, Debug, Borrow
+        let va: BumpVec<u8, &Bump> = BumpVec::from_iter_in(a.iter().copied(), &bump);
+        let mut vc = va.clone();
+        differ!("Clone", vc.as_slice(), a.as_slice());
+        if n > 0 && vc.as_ptr() == va.as_ptr() { notes.push(format!("{head}: contents differ from std::vec::Vec: a clone shares the buffer of the original")); }
+        vc.extend(b.iter());
+        vc.extend(c.iter().copied());
+        let mut wc = a.clone(); wc.extend(b.iter()); wc.extend(c.iter().copied());
+        differ!("Extend<&T> / Extend<T>", vc.as_slice(), wc.as_slice());
+        differ!("Extend on a clone (the original)", va.as_slice(), a.as_slice());
+        let vb: BumpVec<u8, &Bump> = BumpVec::from_iter_in(b.iter().copied(), &bump);
+        differ!("PartialEq between vectors", (va == vb), (a == b));
+        differ!("PartialEq with a slice", (va == b.as_slice()), (a == b));
+        differ!("Ord::cmp through the slices", va.as_slice().cmp(vb.as_slice()), a.cmp(&b));
+        differ!("Hash", hash_of(&|h| va.hash(h)), hash_of(&|h| a.hash(h)));
+        differ!("Debug", format!("{va:?}"), format!("{a:?}"));
+        if n > 0 { let i = r.below(n as u64) as usize; differ!("Index", va[i], a[i]); differ!("Index<Range>", &va[i..], &a[i..]); }
+        { let s: &[u8] = va.as_ref(); differ!("AsRef<[T]>", s, a.as_slice()); let s: &[u8] = std::borrow::Borrow::borrow(&va); differ!("Borrow<[T]>", s, a.as_slice()); }
+        // the reversed vector extends at the front: after extend(b) it reads rev(b) ++ a
+        {
+            let mut rv: MutBumpVecRev<u8, &mut Bump> = MutBumpVecRev::from_iter_in(a.iter().copied(), &mut bump2);
+            let first: Vec<u8> = rv.to_vec();
+            rv.extend(b.iter().copied());
+            let wantr: Vec<u8> = b.iter().rev().copied().chain(first.iter().copied()).collect();
+            differ!("MutBumpVecRev::extend (pushes to the front, one by one)", rv.as_slice(), wantr.as_slice());
+            differ!("Hash (MutBumpVecRev)", hash_of(&|h| rv.hash(h)), hash_of(&|h| wantr.hash(h)));
+            differ!("Debug (MutBumpVecRev)", format!("{rv:?}"), format!("{wantr:?}"));
+        }
+        notes
+    }
+
+    // ------------------------------------------------------------------------------------------
+    // into_flattened on BumpBox<[[T; N]]> and the four vector types, N = 0..3, sized and zero-sized
+    // elements: contents as std's Vec::into_flattened, capacity = old capacity * N (usize::MAX for
+    // zero-sized elements), the vector stays usable, every element is dropped exactly once
+    thread_local! { static ZLIVE: std::cell::Cell<i64> = const { std::cell::Cell::new(0) }; }
+    pub struct Zs;
+    impl Zs { fn new() -> Zs { ZLIVE.with(|c| c.set(c.get() + 1)); Zs } }
+    impl Drop for Zs { fn drop(&mut self) { ZLIVE.with(|c| c.set(c.get() - 1)); } }
+
+    pub fn flatten_probe(r: &mut Rng) -> Vec<String> {
+        let mut notes: Vec<String> = vec![];
+        drops();
+        let n = r.range(0, 6) as usize;
+        let base = r.below(1000) as u32 * 100;
+        let kind = r.below(5);        // 0 BumpBox, 1 BumpVec, 2 FixedBumpVec, 3 MutBumpVec, 4 MutBumpVecRev
+        let arity = r.below(4) as usize;
+        let zst = r.coin(1, 3);
+        let extra = r.below(3) as usize;
+        let kname = ["BumpBox<[[T; N]]>", "BumpVec<[T; N]>", "FixedBumpVec<[T; N]>", "MutBumpVec<[T; N]>", "MutBumpVecRev<[T; N]>"][kind as usize];
+        let head = format!("flatten: {kname}::into_flattened N={arity} n={n} zero-sized={} extra={extra}", zst as u8);
+        let mut bump: Bump = Bump::new();
+        macro_rules! sized {
+            ($N:literal) => {{
+                let mk = |i: usize| -> [D; $N] { core::array::from_fn(|j| D(base + (i * $N + j) as u32)) };
+                let want: Vec<u32> = (0..n * $N).map(|i| base + i as u32).collect();
+                let mut born: Vec<u32> = want.clone();
+                let check = |what: &str, got: Vec<u32>, want: &Vec<u32>, notes: &mut Vec<String>| { if &got != want { notes.push(format!("{head}: contents differ from std::vec::Vec after {what}: {got:?} instead of {want:?}")); } };
+                match kind {
+                    0 => { let b = bump.alloc_iter((0..n).map(mk)); let f = b.into_flattened(); check("into_flattened", ids(&f), &want, &mut notes); }
+                    1 => {
+                        let mut v: BumpVec<[D; $N], &Bump> = BumpVec::with_capacity_in(n + extra, &bump);
+                        for i in 0..n { v.push(mk(i)); }
+                        let cap = v.capacity();
+                        let mut f = v.into_flattened();
+                        check("into_flattened", ids(&f), &want, &mut notes);
+                        if f.capacity() != cap * $N { notes.push(format!("{head}: capacity: {} after flattening a vector of capacity {cap}", f.capacity())); }
+                        let mut w = want.clone();
+                        for i in 0..(extra * $N + 2) { let id = base + 90 + i as u32; f.push(D(id)); born.push(id); w.push(id); }
+                        check("pushes onto the flattened vector", ids(&f), &w, &mut notes);
+                    }
+                    2 => {
+                        let mut v: FixedBumpVec<[D; $N]> = FixedBumpVec::with_capacity_in(n + extra, &bump);
+                        for i in 0..n { v.push(mk(i)); }
+                        let cap = v.capacity();
+                        let mut f = v.into_flattened();
+                        check("into_flattened", ids(&f), &want, &mut notes);
+                        if f.capacity() != cap * $N { notes.push(format!("{head}: capacity: {} after flattening a vector of capacity {cap}", f.capacity())); }
+                        let mut w = want.clone();
+                        while f.len() < f.capacity() && f.len() < 64 { let id = base + 90 + f.len() as u32; f.push(D(id)); born.push(id); w.push(id); }
+                        check("filling the flattened vector", ids(&f), &w, &mut notes);
+                        if f.capacity() < 64 && f.try_push(D(base + 99)).is_ok() { notes.push(format!("{head}: capacity: a push beyond the capacity of the flattened fixed vector succeeded")); born.push(base + 99); } else if f.capacity() < 64 { born.push(base + 99); }
+                    }
+                    3 => {
+                        let mut v: MutBumpVec<[D; $N], &mut Bump> = MutBumpVec::with_capacity_in(n + extra, &mut bump);
+                        for i in 0..n { v.push(mk(i)); }
+                        let cap = v.capacity();
+                        let mut f = v.into_flattened();
+                        check("into_flattened", ids(&f), &want, &mut notes);
+                        if f.capacity() != cap * $N { notes.push(format!("{head}: capacity: {} after flattening a vector of capacity {cap}", f.capacity())); }
+                        let mut w = want.clone();
+                        for i in 0..(extra * $N + 2) { let id = base + 90 + i as u32; f.push(D(id)); born.push(id); w.push(id); }
+                        check("pushes onto the flattened vector", ids(&f), &w, &mut notes);
+                    }
+                    _ => {
+                        let mut v: MutBumpVecRev<[D; $N], &mut Bump> = MutBumpVecRev::with_capacity_in(n + extra, &mut bump);
+                        for i in (0..n).rev() { v.push(mk(i)); }
+                        let cap = v.capacity();
+                        let mut f = v.into_flattened();
+                        check("into_flattened", ids(&f), &want, &mut notes);
+                        if f.capacity() != cap * $N { notes.push(format!("{head}: capacity: {} after flattening a vector of capacity {cap}", f.capacity())); }
+                        let mut w = want.clone();
+                        for i in 0..(extra * $N + 2) { let id = base + 90 + i as u32; f.push(D(id)); born.push(id); w.insert(0, id); }
+                        check("pushes onto the flattened vector", ids(&f), &w, &mut notes);
+                    }
+                }
+                let mut got = drops(); got.sort(); born.sort();
+                if got != born { notes.push(format!("{head}: drops do not match: dropped {got:?}, expected exactly {born:?} once each")); }
+            }};
+        }
+        macro_rules! zero {
+            ($N:literal) => {{
+                let mk = || -> [Zs; $N] { core::array::from_fn(|_| Zs::new()) };
+                let live0 = ZLIVE.with(|c| c.get());
+                let lens: (usize, usize) = match kind {
+                    0 => { let b = bump.alloc_iter((0..n).map(|_| mk())); let f = b.into_flattened(); (f.len(), usize::MAX) }
+                    1 => { let mut v: BumpVec<[Zs; $N], &Bump> = BumpVec::new_in(&bump); for _ in 0..n { v.push(mk()); } let mut f = v.into_flattened(); let l = f.len(); let c = f.capacity(); f.push(Zs::new()); if f.len() != l + 1 { notes.push(format!("{head}: contents differ from std::vec::Vec: push onto the flattened vector")); } (l, c) }
+                    2 => { let mut v: FixedBumpVec<[Zs; $N]> = FixedBumpVec::with_capacity_in(n, &bump); for _ in 0..n { v.push(mk()); } let mut f = v.into_flattened(); let l = f.len(); let c = f.capacity(); f.push(Zs::new()); (l, c) }
+                    3 => { let mut v: MutBumpVec<[Zs; $N], &mut Bump> = MutBumpVec::new_in(&mut bump); for _ in 0..n { v.push(mk()); } let mut f = v.into_flattened(); let l = f.len(); let c = f.capacity(); f.push(Zs::new()); (l, c) }
+                    _ => { let mut v: MutBumpVecRev<[Zs; $N], &mut Bump> = MutBumpVecRev::new_in(&mut bump); for _ in 0..n { v.push(mk()); } let mut f = v.into_flattened(); let l = f.len(); let c = f.capacity(); f.push(Zs::new()); (l, c) }
+                };
+                if lens.0 != n * $N { notes.push(format!("{head}: contents differ from std::vec::Vec: length {} instead of {}", lens.0, n * $N)); }
+                if lens.1 != usize::MAX { notes.push(format!("{head}: capacity: {} for zero-sized elements", lens.1)); }
+                let live1 = ZLIVE.with(|c| c.get());
+                if live1 != live0 { notes.push(format!("{head}: drops do not match: {} zero-sized elements still alive (negative = dropped more than once)", live1 - live0)); }
+            }};
+        }
+        match (zst, arity) {
+            (false, 0) => sized!(0), (false, 1) => sized!(1), (false, 2) => sized!(2), (false, _) => sized!(3),
+            (true, 0) => zero!(0), (true, 1) => zero!(1), (true, 2) => zero!(2), (true, _) => zero!(3),
+        }
+        notes
+    }
 }
-use misc::{misc_probe, producers_probe};
+use misc::{misc_probe, producers_probe, traits_probe, flatten_probe};
